@@ -128,6 +128,9 @@ package storagesc
 //@   modifies $cfgValid
 //@   ensures $cfgValid[obj(conf)] == (err == nil)
 //@   ensures forall o int :: o != obj(conf) ==> $cfgValid[o] == old($cfgValid[o])
+//@ func scConfigKey
+//@   trusted
+//@   modifies nothing
 //@ func getSettingChanges
 //@   trusted
 //@   ensures result1 == nil ==> result0 != nil && result0.Fields != nil
